@@ -131,7 +131,7 @@ func c22Check(s string) (msg string, accepted bool) {
 	return "", err == nil
 }
 
-const c22Rule = "20-byte addresses (uniform, all-zero, all-FF, 1..19 leading zero bytes, single bit) encoded to base58/hex; single-character substitutions/insertions/deletions/transpositions of the base58 text, leading '1', wrong version byte or wrong checksum with otherwise valid structure, alphabet-only strings of plausible length, empty / 2048 / 2049-character / non-alphabet / non-ASCII strings; hex case, length and character edits; non-trivial = an edge address or any edited / arbitrary string; distinct = different string"
+const c22Rule = "20-byte addresses (uniform, all-zero, all-FF, 1..19 leading zero bytes, single bit) encoded to base58/hex; single-character substitutions/insertions/deletions/transpositions of the base58 text, whitespace / control / non-alphabet characters added before, after or inside it, leading '1', wrong version byte or wrong checksum with otherwise valid structure, alphabet-only strings of plausible length, empty / 2048 / 2049-character / non-alphabet / non-ASCII strings; hex case, length and character edits; non-trivial = an edge address or any edited / arbitrary string; distinct = different string"
 
 func TestC22_RoundTrip(t *testing.T) {
 	ev := harn.For("C22").Rule(c22Rule)
@@ -202,7 +202,22 @@ func TestC22_Edits(t *testing.T) {
 		for k := 0; k < 20; k++ {
 			e := []byte(s)
 			kind := ""
-			switch rapid.IntRange(0, 8).Draw(t, "edit") {
+			switch rapid.IntRange(0, 9).Draw(t, "edit") {
+			case 9: // characters outside the alphabet ADDED before, after or inside the otherwise untouched text
+				pads := []string{" ", "\n", "\r\n", "\t", "\v", "\f", "\u0085", "\u00a0", "\u2028", "\ufeff", "\x00", "0", "=", "  "}
+				pad := rapid.SampledFrom(pads).Draw(t, "pad")
+				switch rapid.IntRange(0, 3).Draw(t, "padWhere") {
+				case 0:
+					e = append([]byte(pad), e...)
+				case 1:
+					e = append(e, pad...)
+				case 2:
+					e = append(append([]byte(pad), e...), rapid.SampledFrom(pads).Draw(t, "pad2")...)
+				default:
+					p := rapid.IntRange(1, len(e)-1).Draw(t, "p")
+					e = append(e[:p:p], append([]byte(pad), e[p:]...)...)
+				}
+				kind = "padding"
 			case 0:
 				p := rapid.IntRange(0, len(e)-1).Draw(t, "p")
 				e[p] = c22Alphabet[rapid.IntRange(0, 57).Draw(t, "c")]
